@@ -226,7 +226,7 @@ func (d *Decls) zero(t types.Type) Term {
 		}
 		return Term{"(mk_" + s + " " + strings.Join(parts, " ") + ")", s, t}
 	case *types.Array:
-		return Term{fmt.Sprintf("((as const %s) %s)", s, d.zero(u.Elem()).S), s, t}
+		return Term{d.constArray(d.sortOf(u.Elem()), d.zero(u.Elem()).S), s, t}
 	}
 	return Term{"0", "Int", t}
 }
@@ -266,6 +266,18 @@ func trunc(s string, n int) string {
 		return s[:n]
 	}
 	return s
+}
+
+// constArray builds the array with every element equal to zero. cvc5 only accepts values in (as const ...), so
+// zeros that mention uninterpreted constants use a declared array with a defining axiom.
+func (d *Decls) constArray(elemSort, zero string) string {
+	if !strings.Contains(zero, "str_empty") {
+		return fmt.Sprintf("((as const (Array Int %s)) %s)", elemSort, zero)
+	}
+	n := "zarr_" + sanitize(elemSort)
+	d.declConst(n, "(Array Int "+elemSort+")")
+	d.add("ax:"+n, fmt.Sprintf("(assert (forall ((i Int)) (! (= (select %s i) %s) :pattern ((select %s i)))))", n, zero, n))
+	return n
 }
 
 // dynamic type ids for interface values
